@@ -452,6 +452,10 @@ class ClassParser(BaseParser):
 
             # TODO: it seems redundant for Schema, so we just use it as a fallback for now
             # and work on it later if something went wrong
+            if not field and hasattr(type(instance), attname):
+                # an additional key must not shadow a method or attribute of the class
+                # ({'items': 1} with addition=True made instance.items an int)
+                continue
             instance.__dict__[attname] = value
             # set to __dict__ no matter field (maybe addition=True)
 
